@@ -1,6 +1,6 @@
 import Driver.Proto
 import StockpylModel.Model.Sim
-import StockpylModel.Props.NetFlow
+import StockpylModel.Props.NetPolicy
 open Lean Stockpyl Stockpyl.Sim
 
 namespace Driver.Sim
@@ -75,7 +75,7 @@ def sim : Handler := fun j => do
   let hist ← listOf (listOf exoOf) (← field j "hist")
   let tr := simulate net hist
   pure <| jObj [("orderSeq", jNats (orderSeq net)), ("shipSeq", jNats (shipSeq net)),
-                ("orderOK", jBool (OrderOK net)), ("netWF", jBool (netWFb net)), ("initOK", jBool (initOKb net)), ("allVisited", jBool (allVisitedb net)), ("visitOK", jBool (decide (VisitOK net))),
+                ("orderOK", jBool (OrderOK net)), ("netWF", jBool (netWFb net)), ("initOK", jBool (initOKb net)), ("allVisited", jBool (allVisitedb net && allOrderedb net)), ("visitOK", jBool (decide (VisitOK net))),
                 ("exoOK", jBool (hist.all fun row => decide (row.length = net.nodes.length) && row.all fun x => decide (0 ≤ x.demand))), ("trace", jList jState tr), ("total", jRat (totalCost tr)),
                 ("init", jState (initState net))]
 
